@@ -28,11 +28,11 @@ import (
 func init() {
 	Register(&Rule{
 		ID: "C22", Section: "5 C22",
-		Technique: "counter lockstep: per-path symbolic execution over an affine domain (go/ssa, feasible-path enumeration with phi/nilness pruning, linear facts from guards and io contracts, Gaussian elimination for equality modulo facts), modular callee summaries derived from the callees themselves (fill leaves b.r == 0), who-may-write census of the cursor and counter fields",
+		Technique: "counter lockstep: per-path symbolic execution over an affine domain (go/ssa, feasible-path enumeration with phi/nilness pruning, linear facts from guards and io contracts, Gaussian elimination for equality modulo facts), modular callee summaries derived from the callees themselves (fill leaves b.r == 0), who-may-write census of the cursor and counter fields; guard/dominance rules on direct reads, feasible-path evaluation of UnreadByte in the post-direct-read state, slide-copy shape",
 		Meta: core.Meta{
 			Level:       "other",
-			Explanation: "Decides, for every method of bfe_bufio.Reader and Writer and every return of it: on every feasible path to that return (each loop body taken at most twice) the bytes consumed — bytes obtained from the underlying reader (b.rd.Read / WriterTo.WriteTo results) plus the advance of b.r minus the growth of b.w — equal the change of TotalRead, resp. the bytes accepted — bytes handed to the underlying writer (b.wr.Write / ReaderFrom.ReadFrom results) plus the growth of b.n — equal the change of TotalWrite, as affine expressions over SSA values modulo the linear facts of the path. Calls to other methods of the same object use a summary derived from the callee (fields havocked; `fill` provably leaves b.r == 0; the callee's own balance is its own obligation). Also: Reader.reset / Writer.Reset zero cursor and counter together; the cursor and counter fields are written only inside bfe_bufio. Not covered: equivalence of the delivered bytes with std bufio (data path, inherited code), loops taken more than twice, the saturating decrements of UnreadByte/UnreadRune when TotalRead was externally reset below the unread amount (those branches are assumed away), overflow.",
-			RuleText:    "obligations = each return of each method of Reader/Writer (all feasible paths to it balanced), path-enumeration completeness per method, reset rules, one census obligation per cursor/counter field",
+			Explanation: "Decides, for every method of bfe_bufio.Reader and Writer and every return of it: on every feasible path to that return (each loop body taken at most twice) the bytes consumed — bytes obtained from the underlying reader (b.rd.Read / WriterTo.WriteTo results) plus the advance of b.r minus the growth of b.w — equal the change of TotalRead, resp. the bytes accepted — bytes handed to the underlying writer (b.wr.Write / ReaderFrom.ReadFrom results) plus the growth of b.n — equal the change of TotalWrite, as affine expressions over SSA values modulo the linear facts of the path. Calls to other methods of the same object use a summary derived from the callee (fields havocked; `fill` provably leaves b.r == 0; the callee's own balance is its own obligation). Also: Reader.reset / Writer.Reset zero cursor and counter together; the cursor and counter fields are written only inside bfe_bufio. Data path (three necessary conditions only): a Read that hands the caller's slice straight to b.rd happens only under b.r == b.w, records lastByte = p[n-1] and invalidates lastRuneSize; in the state such a read leaves behind (b.r == b.w, lastByte >= 0; branch conditions on the entry values of r, w, lastByte are evaluated in it) every path of UnreadByte to a nil return stores byte(lastByte) into the buffer cell the read cursor ends at; every slide of the reader's buffer (w -= r, r = 0) is preceded by an uncapped copy of buf[r:w] to buf[0:]. Not covered: equivalence of the delivered bytes with std bufio beyond these conditions (ReadSlice/ReadLine/Peek/ReadRune data, Writer data path), loops taken more than twice, the saturating decrements of UnreadByte/UnreadRune when TotalRead was externally reset below the unread amount (those branches are assumed away), overflow.",
+			RuleText:    "obligations = each return of each method of Reader/Writer (all feasible paths to it balanced), path-enumeration completeness per method, reset rules, one census obligation per cursor/counter field, each direct read of the underlying reader, each nil return of UnreadByte, each slide",
 			Assumptions: []string{
 				"io.Reader.Read / io.Writer.Write / copy return 0 <= n <= len(argument); WriteTo/ReadFrom return n >= 0",
 				"0 <= b.r <= b.w <= len(b.buf) and 0 <= b.n <= len(b.buf) hold on entry of every method (bufio's structural invariant)",
@@ -59,6 +59,13 @@ func init() {
 			{Name: "readslice-after-fill-undercount", File: "bfe_bufio/bufio.go", Old: "			b.TotalRead += n + i + 1\n", New: "			b.TotalRead += i + 1\n", Expect: "lockstep|Reader.ReadSlice:return#3"},
 			{Name: "readline-cr-putback-uncounted", File: "bfe_bufio/bufio.go", Old: "			b.r--\n			if b.TotalRead > 0 {\n				b.TotalRead--\n			}\n", New: "			b.r--\n", Expect: "lockstep|Reader.ReadLine:return#1"},
 			{Name: "readfrom-flush-error-uncounted", File: "bfe_bufio/bufio.go", Old: "				b.TotalWrite += int(n)\n				return n, err1\n", New: "				return n, err1\n", Expect: "lockstep|Writer.ReadFrom:return#2"},
+			{Name: "unreadbyte-restore-dropped", File: "bfe_bufio/bufio.go", Old: "		b.buf[0] = byte(b.lastByte)\n", New: "", Expect: "unread-restore|Reader.UnreadByte"},
+			{Name: "unreadbyte-restore-only-when-buffer-at-origin", File: "bfe_bufio/bufio.go", Old: "	if b.r == b.w && b.lastByte >= 0 {\n		b.w = 1", New: "	if b.r == b.w && b.r == 0 && b.lastByte >= 0 {\n		b.w = 1", Expect: "unread-restore|Reader.UnreadByte"},
+			{Name: "unreadbyte-restores-wrong-cell", File: "bfe_bufio/bufio.go", Old: "		b.buf[0] = byte(b.lastByte)\n", New: "		b.buf[1] = byte(b.lastByte)\n", Expect: "unread-restore|Reader.UnreadByte"},
+			{Name: "direct-read-forgets-lastbyte", File: "bfe_bufio/bufio.go", Old: "				b.lastByte = int(p[n-1])\n				b.lastRuneSize = -1\n", New: "				b.lastRuneSize = -1\n", Expect: "bypass-state|Reader.Read:direct#1:records-last-byte"},
+			{Name: "direct-read-with-buffered-data", File: "bfe_bufio/bufio.go", Old: "	if b.w == b.r {\n		if b.err != nil {\n			return 0, b.readErr()\n		}\n		if len(p) >= len(b.buf) {", New: "	if b.w >= b.r {\n		if b.err != nil {\n			return 0, b.readErr()\n		}\n		if len(p) >= len(b.buf) {", Expect: "bypass-state|Reader.Read:direct#1:empty-buffer"},
+			{Name: "fill-slide-destination-capped", File: "bfe_bufio/bufio.go", Old: "		copy(b.buf, b.buf[b.r:b.w])\n		b.w -= b.r", New: "		copy(b.buf[:b.r], b.buf[b.r:b.w])\n		b.w -= b.r", Expect: "slide|Reader.fill"},
+			{Name: "silent-unreadbyte-restore-reordered", File: "bfe_bufio/bufio.go", Old: "		b.w = 1\n		b.r = 0\n		b.buf[0] = byte(b.lastByte)\n		b.lastByte = -1\n", New: "		last := byte(b.lastByte)\n		b.r = 0\n		b.w = 1\n		b.buf[b.r] = last\n		b.lastByte = -1\n", Silent: true},
 			{Name: "silent-readslice-counter-first", File: "bfe_bufio/bufio.go", Old: "			b.r = n + i + 1\n\n			b.TotalRead += n + i + 1\n", New: "			consumed := n + i + 1\n			b.TotalRead += consumed\n			b.r = consumed\n", Silent: true},
 			{Name: "silent-reorder-and-rename", File: "bfe_bufio/bufio.go", Old: "	c = b.buf[b.r]\n	b.r++\n	b.lastByte = int(c)\n\n	b.TotalRead += 1\n", New: "	b.TotalRead++\n	next := b.buf[b.r]\n	c = next\n	b.lastByte = int(c)\n	b.r = b.r + 1\n", Silent: true},
 		},
@@ -1286,4 +1293,29 @@ func runC22(c *core.Ctx) {
 	}
 	c.Min("counter-writers", 5)
 	_ = nObl
+
+	// ---- data path: direct reads, UnreadByte, slides
+	{
+		fv := func(n string) *types.Var {
+			v, _ := p.Obj(c22pkg, "Reader."+n).(*types.Var)
+			if v == nil {
+				c.Missing(c22pkg + ".Reader." + n)
+			}
+			return v
+		}
+		F := c22unreadFields{buf: fv("buf"), r: fv("r"), w: fv("w"), rd: fv("rd"), lastByte: fv("lastByte"), lastRune: fv("lastRuneSize")}
+		unread := p.Func(c22pkg, "Reader.UnreadByte")
+		if unread == nil {
+			c.Missing(c22pkg + ".Reader.UnreadByte")
+		}
+		if F.buf != nil && F.r != nil && F.w != nil && F.rd != nil && F.lastByte != nil && F.lastRune != nil && unread != nil {
+			var readers []*ssa.Function
+			for _, fn := range methods {
+				if x.kindOf(fn) == rk {
+					readers = append(readers, fn)
+				}
+			}
+			c22BypassAndUnread(c, readers, F, unread)
+		}
+	}
 }
